@@ -420,3 +420,21 @@ for c in CONTRACTS:
         if v.startswith("UNITARY_BLOCK("):
             a, b = v[len("UNITARY_BLOCK("):-1].split(",")
             c.ensures[k] = _unitary_block(a.strip(), b.strip())
+
+
+# ModeSwaps.get_unitary: the permutation matrix of its dictionary for EVERY complete dictionary - also the empty one - and never an exception
+MODESWAPS_UNITARY = Contract(
+    target=f"{F}:ModeSwaps.get_unitary",
+    types={"self": "obj:ModeSwaps{swaps:dict[int,int]}", "n_modes": "nat"},
+    requires=["forall(t, implies(0 <= t and t < n_modes, 0 <= self.swaps.get(t, t) and self.swaps.get(t, t) < n_modes))"],
+    modifies=[],
+    ensures={
+        "dims": "result.shape[0] == n_modes and result.shape[1] == n_modes",
+        "entries": "forall((i,j), implies(0 <= i and i < n_modes and 0 <= j and j < n_modes, mat_at(result,j,i) == cplx(1 if self.swaps.get(i, i) == j else 0, 0)))",
+    },
+    raises={},
+    result_type="matsq",
+    props=["C01", "C09"],
+)
+MODESWAPS_UNITARY.no_callee = True
+CONTRACTS.append(MODESWAPS_UNITARY)
